@@ -5,6 +5,7 @@ import (
 	"encoding/binary"
 	"fmt"
 	"hash/crc32"
+	"io"
 	"math"
 	"os"
 	"path/filepath"
@@ -17,11 +18,29 @@ import (
 	"github.com/RoaringBitmap/roaring"
 	segment "github.com/blugelabs/bluge_segment_api"
 	ice "github.com/blugelabs/ice/v2"
+
+	"icecheck/iceref"
 )
 
-// RSeg is one real segment of a case.
+// iceAPI is one implementation of the package (the current tree, or the frozen reference).
+type iceAPI struct {
+	name     string
+	New      func(docs []segment.Document, norm func(string, int) float32, mode uint32) (segment.Segment, uint64, error)
+	NewPub   func(docs []segment.Document, norm func(string, int) float32) (segment.Segment, uint64, error)
+	Merge    func(segs []segment.Segment, drops []*roaring.Bitmap, w io.Writer, mode uint32, closeCh chan struct{}) ([][]uint64, uint64, error)
+	MergePub func(segs []segment.Segment, drops []*roaring.Bitmap, bufSize int) segment.Merger
+	Load     func(d *segment.Data) (segment.Segment, error)
+}
+
+var curAPI = &iceAPI{name: "current", New: ice.VerifNew, NewPub: ice.New, Merge: ice.VerifMerge, MergePub: ice.Merge, Load: ice.Load}
+var refAPI = &iceAPI{name: "reference", New: iceref.VerifNew, NewPub: iceref.New, Merge: iceref.VerifMerge, MergePub: iceref.Merge, Load: iceref.Load}
+
+// RSeg is one real segment of a case.  `seg` belongs to the writing implementation (and is what
+// merges consume); `obs` is what queries observe: the same object, or - in cross-reading mode -
+// the segment's persisted bytes loaded by the other implementation.
 type RSeg struct {
 	seg     segment.Segment
+	obs     segment.Segment
 	err     string // non-empty: construction failed (err | panic | hang)
 	docnums [][]uint64
 	isMerge bool
@@ -82,8 +101,11 @@ func bitmapOf(l []uint32) *roaring.Bitmap {
 	return bm
 }
 
-// BuildWorld constructs every segment of the case with the real code.
-func BuildWorld(c *Case) *World {
+// BuildWorld constructs every segment of the case with the current code.
+func BuildWorld(c *Case) *World { return BuildWorldX(c, curAPI, curAPI) }
+
+// BuildWorldX constructs the segments with `wr` and lets `rd` read them.
+func BuildWorldX(c *Case, wr, rd *iceAPI) *World {
 	w := &World{c: c}
 	for i := range c.Segs {
 		sd := &c.Segs[i]
@@ -94,9 +116,9 @@ func BuildWorld(c *Case) *World {
 				var s segment.Segment
 				var err error
 				if sd.API == "pub" {
-					s, _, err = ice.New(toDocs(sd.Docs), normFunc(c.Norm))
+					s, _, err = wr.NewPub(toDocs(sd.Docs), normFunc(c.Norm))
 				} else {
-					s, _, err = ice.VerifNew(toDocs(sd.Docs), normFunc(c.Norm), sd.Mode)
+					s, _, err = wr.New(toDocs(sd.Docs), normFunc(c.Norm), sd.Mode)
 				}
 				if err != nil {
 					return "err"
@@ -123,7 +145,7 @@ func BuildWorld(c *Case) *World {
 					if bs <= 0 {
 						bs = 4096
 					}
-					m := ice.Merge(segs, drops, bs)
+					m := wr.MergePub(segs, drops, bs)
 					var err error
 					n, err = m.WriteTo(&buf, nil)
 					if err != nil {
@@ -131,7 +153,7 @@ func BuildWorld(c *Case) *World {
 					}
 					rs.docnums = m.DocumentNumbers()
 				} else {
-					dn, nn, err := ice.VerifMerge(segs, drops, &buf, sd.Mode, nil)
+					dn, nn, err := wr.Merge(segs, drops, &buf, sd.Mode, nil)
 					if err != nil {
 						return "err"
 					}
@@ -139,7 +161,12 @@ func BuildWorld(c *Case) *World {
 					rs.docnums = dn
 				}
 				rs.wroteOK = n == int64(buf.Len())
-				s, err := ice.Load(segment.NewDataBytes(buf.Bytes()))
+				for j, in := range sd.Ins {
+					if !in.Nil && !sameU32(drops[j].ToArray(), in.Drops) {
+						return "drops-mutated"
+					}
+				}
+				s, err := wr.Load(segment.NewDataBytes(buf.Bytes()))
 				if err != nil {
 					return "loaderr"
 				}
@@ -173,7 +200,7 @@ func BuildWorld(c *Case) *World {
 					if err != nil {
 						return "ioerr"
 					}
-					s, err := ice.Load(d)
+					s, err := wr.Load(d)
 					if err != nil {
 						return "loaderr"
 					}
@@ -182,12 +209,26 @@ func BuildWorld(c *Case) *World {
 					// exact-capacity copy: a read past the end faults instead of silently succeeding
 					bb := make([]byte, len(b))
 					copy(bb, b)
-					s, err := ice.Load(segment.NewDataBytes(bb))
+					s, err := wr.Load(segment.NewDataBytes(bb))
 					if err != nil {
 						return "loaderr"
 					}
 					rs.seg = s
 				}
+			}
+			rs.obs = rs.seg
+			if rd != wr {
+				b, _, err := persist(rs.seg)
+				if err != nil {
+					return "persisterr"
+				}
+				bb := make([]byte, len(b))
+				copy(bb, b)
+				o, err := rd.Load(segment.NewDataBytes(bb))
+				if err != nil {
+					return "xloaderr"
+				}
+				rs.obs = o
 			}
 			return ""
 		})
@@ -231,6 +272,18 @@ func (r *ReuseCtx) pick(n int) int { // -1 = none
 		return n - 1 // most recent
 	}
 	return int((h >> 8) % uint64(n))
+}
+
+func sameU32(a, b []uint32) bool {
+	if len(a) != len(b) {
+		return false
+	}
+	for i := range a {
+		if a[i] != b[i] {
+			return false
+		}
+	}
+	return true
 }
 
 func parseU32List(s string) []uint32 {
@@ -309,7 +362,7 @@ func (w *World) exec(q Query, rc *ReuseCtx) string {
 	if rs == nil {
 		return e
 	}
-	seg := rs.seg
+	seg := rs.obs
 	switch q[0] {
 	case "fields":
 		var out []string
@@ -462,6 +515,9 @@ func (w *World) exec(q Query, rc *ReuseCtx) string {
 				return "bad-query"
 			}
 		}
+		if except != nil && !sameU32(except.ToArray(), parseU32List(q[4])) {
+			return "except-mutated"
+		}
 		if q[0] == "iter" {
 			out = append(out, fmt.Sprintf("cnt=%d", cnt))
 			out = append(out, fmt.Sprintf("icnt=%d", it.Count()))
@@ -589,11 +645,16 @@ func (w *World) exec(q Query, rc *ReuseCtx) string {
 		if err != nil {
 			return "bad:load"
 		}
-		is := ls.(*ice.Segment)
+		type footerView interface {
+			Count() uint64
+			ChunkMode() uint32
+			Version() uint32
+		}
+		is := ls.(footerView)
 		if is.Count() != nd || is.ChunkMode() != cm || is.Version() != ver {
 			return "bad:footer-fields"
 		}
-		if orig, ok := seg.(*ice.Segment); ok {
+		if orig, ok := seg.(footerView); ok {
 			if orig.Count() != nd || orig.ChunkMode() != cm {
 				return "bad:footer-vs-original"
 			}
